@@ -580,6 +580,13 @@ func (e *Env) evalIdent(t *ast.Ident) (Val, error) {
 					et := nr.val.Type().Underlying().(*types.Pointer).Elem()
 					return Val{e.v.load(e.st, val, et), et}, nil
 				}
+				// a variable whose address is taken lives in a cell: its current content, not the value it was initialised with
+				if al := allocNamed(e.frame.fn, t.Name); al != nil {
+					if cell, ok := e.frame.vals[al]; ok {
+						et := al.Type().Underlying().(*types.Pointer).Elem()
+						return Val{e.v.load(e.st, cell, et), et}, nil
+					}
+				}
 				return Val{val, nr.val.Type()}, nil
 			}
 		}
@@ -594,6 +601,25 @@ func (e *Env) evalIdent(t *ast.Ident) (Val, error) {
 		}
 	}
 	return Val{}, fmt.Errorf("unknown identifier %s", t.Name)
+}
+
+// allocNamed: the unique cell (Alloc) of the local variable with this name, if there is exactly one
+func allocNamed(fn *ssa.Function, name string) *ssa.Alloc {
+	if fn == nil {
+		return nil
+	}
+	var found *ssa.Alloc
+	for _, b := range fn.Blocks {
+		for _, in := range b.Instrs {
+			if a, ok := in.(*ssa.Alloc); ok && a.Comment == name {
+				if found != nil {
+					return nil
+				}
+				found = a
+			}
+		}
+	}
+	return found
 }
 
 func localVarType(fn *ssa.Function, name string) types.Type {
@@ -754,6 +780,22 @@ func (e *Env) evalCall(c *ast.CallExpr) (Val, error) {
 		}
 	}
 	switch name {
+	case "cur":
+		// cur(x): the current value of the local variable / spilled parameter x (a bare parameter name denotes its entry value)
+		id, ok := c.Args[0].(*ast.Ident)
+		if !ok || e.frame == nil {
+			return Val{}, fmt.Errorf("cur() needs a local variable name")
+		}
+		if nr, ok := e.frame.names[id.Name]; ok {
+			if val, ok := e.frame.vals[nr.val]; ok {
+				if nr.isAddr {
+					et := nr.val.Type().Underlying().(*types.Pointer).Elem()
+					return Val{e.v.load(e.st, val, et), et}, nil
+				}
+				return Val{val, nr.val.Type()}, nil
+			}
+		}
+		return e.eval(c.Args[0])
 	case "old":
 		if e.old == nil {
 			return Val{}, fmt.Errorf("old() not available here")
